@@ -34,6 +34,12 @@ using namespace std::string_literals;
 
 namespace
 {
+    // Random placement offset in [-radius, radius); a radius below 0.5 (or NaN) places exactly
+    float random_offset(float radius)
+    {
+        auto range = clamp_cast<int>(radius * 2);
+        return range > 0 ? static_cast<float>(std::rand() % range) - radius : 0;
+    }
     value objnull_(runtime& runtime)
     {
         return value(std::make_shared<d_object>());
@@ -55,7 +61,7 @@ namespace
     value createvehicle_array(runtime& runtime, value::cref right)
     {
         auto arr = right.data<d_array>();
-        if (!arr->check_type(runtime, std::array<sqf::runtime::type, 5>{ t_string(), t_array(), t_array(), t_string(), }))
+        if (!arr->check_type(runtime, std::array<sqf::runtime::type, 5>{ t_string(), t_array(), t_array(), t_scalar(), t_string() }))
         {
             return {};
         }
@@ -91,8 +97,8 @@ namespace
         }
         auto veh = object::create(runtime, conf, true);
         veh->position({
-            position->at(0).data<d_scalar, float>() + ((std::rand() % static_cast<int>(radius * 2)) - radius),
-            position->at(1).data<d_scalar, float>() + ((std::rand() % static_cast<int>(radius * 2)) - radius),
+            position->at(0).data<d_scalar, float>() + random_offset(radius),
+            position->at(1).data<d_scalar, float>() + random_offset(radius),
             position->at(2).data<d_scalar, float>()
             });
         return std::make_shared<d_object>(veh);
@@ -262,7 +268,7 @@ namespace
         auto grp = left.data<d_group>();
         auto arr = right.data<d_array>();
         
-        if (arr->check_type(runtime, std::array<sqf::runtime::type, 5> { t_string(), t_array(), t_array(), t_scalar(), t_string() }))
+        if (!arr->check_type(runtime, std::array<sqf::runtime::type, 5> { t_string(), t_array(), t_array(), t_scalar(), t_string() }))
         {
             return {};
         }
@@ -298,8 +304,8 @@ namespace
         }
         auto veh = object::create(runtime, conf, false);
         veh->position({
-            position->at(0).data<d_scalar, float>() + ((std::rand() % static_cast<int>(radius * 2)) - radius),
-            position->at(1).data<d_scalar, float>() + ((std::rand() % static_cast<int>(radius * 2)) - radius),
+            position->at(0).data<d_scalar, float>() + random_offset(radius),
+            position->at(1).data<d_scalar, float>() + random_offset(radius),
             position->at(2).data<d_scalar, float>()
             });
         return std::make_shared<d_object>(veh);
